@@ -1,5 +1,5 @@
 (* C16 model driver: same line protocol as harness/C16_crypto.cpp for the cases the model covers
-   (bundled md5 / sha1 objects, hmac over them, key parsing, name dispatch, cbc status machine) *)
+   (bundled md5 / sha1 objects, hmac over them, key parsing, name dispatch, cbc status machine, the cbc object with the FIPS-197 cipher) *)
 let chunks_of tok =
   if tok = "." then [] else List.map bytes_of_hex (String.split_on_char ',' tok)
 let hexs l = String.concat "" (List.map (fun d -> " " ^ hex_of_bytes d) l)
@@ -14,12 +14,24 @@ let op_of s =
   match s.[0] with
   | 'k' -> OpKey (n ()) | 'i' -> OpIv (n ()) | 'n' -> OpNonce | 'e' -> OpEnc | 'd' -> OpDec
   | _ -> failwith "op"
-let st_name = function StOk -> "ok" | StBadKeySize -> "badkey" | StBadIvSize -> "badiv" | StNoKey -> "nokey" | StNoIv -> "noiv"
+let st_name = function StOk -> "ok" | StBadKeySize -> "badkey" | StBadIvSize -> "badiv" | StNoKey -> "nokey" | StNoIv -> "noiv" | StKeyTwice -> "keytwice"
+let session_mac a key =
+  match a with
+  | "md5" -> (fun m -> List.hd (hmac_md5_session key [[m]])), 16
+  | "sha1" -> (fun m -> List.hd (hmac_sha1_session key [[m]])), 20
+  | _ -> failwith "algo"
 let () = main_loop (function
   | "dg" :: "md5" :: msgs -> "dg md5" ^ hexs (md5_session (List.map chunks_of msgs))
   | "dg" :: "sha1" :: msgs -> "dg sha1" ^ hexs (sha1_session (List.map chunks_of msgs))
   | "hm" :: "md5" :: k :: msgs -> "hm md5" ^ hexs (hmac_md5_session (bytes_of_hex k) (List.map chunks_of msgs))
   | "hm" :: "sha1" :: k :: msgs -> "hm sha1" ^ hexs (hmac_sha1_session (bytes_of_hex k) (List.map chunks_of msgs))
+  | "dg" :: ("sha224" | "sha256" | "sha384" | "sha512" as a) :: msgs ->
+      (* the OpenSSL-backed wrappers against FIPS 180-4 written in coq/C16/Sha2Defs.v *)
+      let bits = n_of_int (int_of_string (String.sub a 3 3)) in
+      "dg " ^ a ^ hexs (sha2_session bits (List.map chunks_of msgs))
+  | "hm" :: ("sha224" | "sha256" | "sha384" | "sha512" as a) :: k :: msgs ->
+      let bits = n_of_int (int_of_string (String.sub a 3 3)) in
+      "hm " ^ a ^ hexs (hmac_sha2_session bits (bytes_of_hex k) (List.map chunks_of msgs))
   | ["key"; h] -> "key " ^ key_answer (set_hex (bytes_of_hex h))
   | ["hexkey"; h] -> "hexkey " ^ hex_of_bytes (to_hex (bytes_of_hex h)) ^ " rt=1"
   | ["keyf"; h] -> "keyf " ^ key_answer (key_from_file (bytes_of_hex h))
@@ -30,4 +42,33 @@ let () = main_loop (function
   | "cbcst" :: bits :: ops ->
       let ks = n_of_int (int_of_string bits / 8) in
       "cbcst" ^ String.concat "" (List.map (fun s -> " " ^ st_name s) (cbc_ctl_run ks (false, false) (List.map op_of ops)))
+  | "cbcobj" :: bits :: ops ->
+      (* the whole object with the FIPS-197 cipher of coq/C16/AesDefs.v: statuses and output bytes *)
+      let ks = n_of_int (int_of_string bits / 8) in
+      let arg s = bytes_of_hex (String.sub s 1 (String.length s - 1)) in
+      let op s = match s.[0] with
+        | 'k' -> OKey (arg s) | 'i' -> OIv (arg s) | 'e' -> OEnc (arg s) | 'd' -> ODec (arg s) | _ -> failwith "op" in
+      let served = List.map (fun s -> s.[0] = 'e' || s.[0] = 'd') ops in
+      let res = aes_obj_run ks (List.map op ops) in
+      "cbcobj" ^ String.concat "" (List.map2 (fun (st, out) sv ->
+          " " ^ st_name st ^ (if sv && st = StOk then ":" ^ hex_of_bytes out else "")) res served)
+  | ["cbc"; _; k; iv; msg] ->
+      (* ciphertext of the whole plaintext under the FIPS-197 cipher; the flags are what the theorems promise *)
+      let plain = List.concat (chunks_of msg) in
+      let c = fst (cbc_enc (aes_E (bytes_of_hex k)) (bytes_of_hex iv) plain) in
+      "cbc " ^ hex_of_bytes c ^ " chain=1 rt=1 rtb=1 ivind=1 reiv=1"
+  | ["cbcname"; h] ->
+      (match cbc_by_name (bytes_of_hex h) with None -> "cbcname null" | Some ks -> Printf.sprintf "cbcname %d 16" (int_of_n ks))
+  | ["sessd"; "hmac"; a; k; c] ->
+      (* hmac_cipher::decrypt: the model of src/hmac_encryptor.cpp over the modelled hmac objects *)
+      let mac, dsz = session_mac a (bytes_of_hex k) in
+      (match hc_decrypt mac (nat_of_int dsz) (bytes_of_hex c) with
+       | Some p -> "sessd ok:" ^ hex_of_bytes p | None -> "sessd fail")
+  | ["sessd"; "aes"; _; a; ck; mk; c] ->
+      (* aes_cipher::decrypt: the model of src/aes_encryptor.cpp with the FIPS-197 cipher; the running IV of the object is
+         irrelevant (cbc_dec_blocks_2_to_n_iv_independent): zeros here *)
+      let mac, dsz = session_mac a (bytes_of_hex mk) in
+      let zero16 = bytes_of_hex "00000000000000000000000000000000" in
+      (match fst (ac_decrypt mac (nat_of_int dsz) (aes_D (bytes_of_hex ck)) zero16 (bytes_of_hex c)) with
+       | Some p -> "sessd ok:" ^ hex_of_bytes p | None -> "sessd fail")
   | _ -> "BAD-CASE")
